@@ -12,14 +12,15 @@ static vh_key_t K1, K2, KW, KEC, KED, KRSA;
 static jwk_set_t *kset;
 static const jwk_item_t *I1, *I1A, *I2, *IW, *IECpriv, *IECpub, *IED, *IRSA, *IRSApub;
 
-#define NTOK 33
+#define NTOK 42
 static char *TOK[NTOK];
 static const char *TOKNAME[NTOK] = { "NULL", "empty", "no-dots", "one-dot", "header-not-base64", "header-not-json", "unknown-alg", "missing-alg",
 	"non-string-alg", "payload-not-json", "expired", "not-yet-valid", "wrong-iss", "alg-none-unsigned", "wrong-alg-HS384", "bad-signature",
 	"signature-not-base64", "valid-A", "valid-B", "exp-not-integer", "kid-fail(callback error)", "kid-bad(callback picks inadmissible key)",
 	"kid-k2(valid under K2)", "kid-weak(callback picks too-small key)", "huge-valid", "valid-none-token", "wrong-aud",
 	"payload-json-array", "payload-json-array-signed-valid", "header-json-array", "payload-empty-object-unsigned",
-	"rs256-valid", "rs256-bad-signature" };
+	"rs256-valid", "rs256-bad-signature",
+	"aud-is-list-with-x", "aud-is-list-without-x", "iss-is-number", "sub-is-null", "aud-is-null", "iss-is-list", "iss-sub-aud-right", "sub-wrong", "aud-is-object" };
 
 static char *mk(const vh_key_t *k, int alg, const char *hdr, const char *pl) { return vh_ref_token(k, alg, hdr, pl); }
 
@@ -63,6 +64,16 @@ static void build_pool(void)
 	TOK[31] = mk(&KRSA, JWT_ALG_RS256, "{\"alg\":\"RS256\",\"typ\":\"JWT\"}", "{\"iss\":\"me\",\"aud\":\"x\"}");
 	TOK[32] = mk(&KRSA, JWT_ALG_RS256, "{\"alg\":\"RS256\",\"typ\":\"JWT\"}", "{\"iss\":\"me\",\"aud\":\"x\",\"n\":2}");
 	{ size_t l = strlen(TOK[32]); TOK[32][l - 5] = TOK[32][l - 5] == 'A' ? 'B' : 'A'; }
+	/* string claims whose value is present but not a string (validly signed) */
+	TOK[33] = mk(&K1, JWT_ALG_HS256, H, "{\"iss\":\"me\",\"sub\":\"s\",\"aud\":[\"x\"]}");
+	TOK[34] = mk(&K1, JWT_ALG_HS256, H, "{\"iss\":\"me\",\"sub\":\"s\",\"aud\":[\"y\",\"z\"]}");
+	TOK[35] = mk(&K1, JWT_ALG_HS256, H, "{\"iss\":5,\"sub\":\"s\",\"aud\":\"x\"}");
+	TOK[36] = mk(&K1, JWT_ALG_HS256, H, "{\"iss\":\"me\",\"sub\":null,\"aud\":\"x\"}");
+	TOK[37] = mk(&K1, JWT_ALG_HS256, H, "{\"iss\":\"me\",\"sub\":\"s\",\"aud\":null}");
+	TOK[38] = mk(&K1, JWT_ALG_HS256, H, "{\"iss\":[\"me\"],\"sub\":\"s\",\"aud\":\"x\"}");
+	TOK[39] = mk(&K1, JWT_ALG_HS256, H, "{\"iss\":\"me\",\"sub\":\"s\",\"aud\":\"x\"}");
+	TOK[40] = mk(&K1, JWT_ALG_HS256, H, "{\"iss\":\"me\",\"sub\":\"t\",\"aud\":\"x\"}");
+	TOK[41] = mk(&K1, JWT_ALG_HS256, H, "{\"iss\":\"me\",\"sub\":\"s\",\"aud\":{\"x\":1}}");
 }
 
 /* checker callback: select key by kid */
@@ -79,7 +90,7 @@ static int kid_cb(jwt_t *jwt, jwt_config_t *cfg)
 	return 0;
 }
 
-#define NCFG 5
+#define NCFG 6
 static int PRISTINE[2][NCFG][NTOK];
 static int cur_prov;
 static jwt_checker_t *mk_checker(int cfg)
@@ -92,6 +103,8 @@ static jwt_checker_t *mk_checker(int cfg)
 	case 2: break;
 	case 3: jwt_checker_setkey(c, JWT_ALG_NONE, I1A); jwt_checker_time_leeway(c, JWT_CLAIM_EXP, -1); jwt_checker_claim_set(c, JWT_CLAIM_AUD, "x"); break;
 	case 4: jwt_checker_setkey(c, JWT_ALG_RS256, IRSApub); jwt_checker_claim_set(c, JWT_CLAIM_ISS, "me"); break;
+	case 5: jwt_checker_setkey(c, JWT_ALG_HS256, I1); jwt_checker_claim_set(c, JWT_CLAIM_ISS, "me"); jwt_checker_claim_set(c, JWT_CLAIM_SUB, "s");
+		jwt_checker_claim_set(c, JWT_CLAIM_AUD, "x"); jwt_checker_time_leeway(c, JWT_CLAIM_EXP, 5); jwt_checker_time_leeway(c, JWT_CLAIM_NBF, 5); break;
 	}
 	if (jwt_checker_error(c)) vh_harness_fail("checker config failed: %s", jwt_checker_error_msg(c));
 	return c;
